@@ -132,12 +132,88 @@ def _helpers(S, ty):
     return {k: v for k, v in out.items() if v}
 
 
-def inline_helpers(S, fnpath, body, known_text, log):
+def _foreign_methods(sources, ty):
+    """private, non-async, early-exit-free methods (taking self by reference or value) of inherent impls of types OTHER than `ty`,
+    over all files of the unit; a name defined more than once is dropped."""
+    out, seen = {}, {}
+    for S in sources:
+        m = S.m
+        depths = brace_depths(m)
+        for (ity, itrait, ob, cb) in S.impls():
+            if itrait or ity == ty:
+                continue
+            for mm in re.finditer(r"\bfn\s+(\w+)\b", m[ob:cb]):
+                off = ob + mm.start()
+                if depths[off] != depths[ob] + 1:
+                    continue
+                f = S._fn_at(off, mm.group(1))
+                if not f:
+                    continue
+                seen[f["name"]] = seen.get(f["name"], 0) + 1
+                sig = f["sig"]
+                if re.match(r"\s*pub\b(?!\s*\()", sig) or re.search(r"\basync\b", mask(sig).split("fn")[0]):
+                    continue
+                pr = _params(sig)
+                if pr is None or not pr[0] or "mut self" in pr[0].replace("&mut self", ""):
+                    continue
+                bm = mask(f["body"])
+                if re.search(r"\breturn\b", bm) or "?" in bm or re.search(r"\b(break|continue)\s+'", bm):
+                    continue
+                out[f["name"]] = dict(body=f["body"], sig=sig, self_kind=pr[0], params=pr[1], line=f["line"], file=S.path, owner=ity)
+    return {k: v for k, v in out.items() if seen.get(k) == 1}
+
+
+def inline_helpers(S, fnpath, body, known_text, log, other_sources=()):
     """body: raw text `{ ... }` of the function under contract. Returns the body with unknown private helpers inlined."""
     path = fnpath.split("#")[0].split("@")[0]
     ty, own = (path.rsplit("::", 1) + [None])[:2] if "::" in path else (None, path)
     helpers = _helpers(S, ty)
     helpers.pop(own, None)
+    # free functions of the unit's other files (crate-private helpers shared between modules)
+    for S2 in other_sources:
+        if S2.path == S.path:
+            continue
+        for k, v in _helpers(S2, None).items():
+            if not v["assoc"] and k not in helpers:
+                helpers[k] = v
+    # methods of other types called on a simple receiver path: `recv.h(args)` -> `{ lets; BODY[self := recv] }`
+    foreign = {k: v for k, v in _foreign_methods([S] + [x for x in other_sources if x.path != S.path], ty).items()
+               if k not in helpers and not re.search(r"\b%s\b" % re.escape(k), known_text)}
+    fresh_f = [0]
+    for name, h in foreign.items():
+        pos = 0
+        while True:
+            m = mask(body)
+            mm = re.compile(r"((?:[A-Za-z_]\w*)(?:\s*\.\s*[A-Za-z_]\w*)*)\s*\.\s*%s\s*\(" % re.escape(name)).search(m, pos)
+            if not mm:
+                break
+            recv = body[mm.start(1):mm.end(1)]
+            if re.search(r"\bfn\s+$", m[:mm.start()]) or recv.strip() in ("self", "Self"):
+                pos = mm.end()
+                continue
+            op = mm.end() - 1
+            cp = match_close(m, op)
+            args = _split_top(body[op + 1:cp])
+            if len(args) != len(h["params"]):
+                pos = mm.end()
+                continue
+            k0 = fresh_f[0]
+            fresh_f[0] += len(args)
+            lets = "".join("let vx_g%d = %s; " % (k0 + i, a) for i, a in enumerate(args))
+            lets += "".join("let %s%s = vx_g%d; " % ("mut " if mut else "", p, k0 + i) for i, (p, mut) in enumerate(h["params"]))
+            hb = h["body"]
+            hm = mask(hb)
+            hb2, last = [], 0
+            for w in re.finditer(r"(?<![\w.])self\b", hm):
+                hb2.append(hb[last:w.start()])
+                hb2.append("(" + recv.strip() + ")")
+                last = w.end()
+            hb2.append(hb[last:])
+            repl = "{ " + lets + "".join(hb2) + " }"
+            body = body[:mm.start()] + repl + body[cp + 1:]
+            log["R19-inline"] = log.get("R19-inline", 0) + 1
+            log.setdefault("_inlined", []).append("%s::%s (%s:%d) into %s" % (h["owner"], name, h["file"], h["line"], fnpath))
+            pos = mm.start() + len(repl)
     # unknown to the unit only
     helpers = {k: v for k, v in helpers.items() if not re.search(r"\b%s\b" % re.escape(k), known_text)}
     if not helpers:
